@@ -31,6 +31,7 @@ class Sync(ParsableBase):
         return composer.composed_bytes
 
 
+@attr.s
 class SslRequest(ParsableBase):
     MESSAGE_SIZE = 8
     REQUEST_CODE = 80877103
